@@ -12,6 +12,7 @@
 #include <list>
 #include <deque>
 #include <string_view>
+#include <memory_resource>
 #include <cwchar>
 #include <dune/common/exceptions.hh>
 #include <dune/common/path.hh>
@@ -50,18 +51,40 @@ static std::string message_of(const Dune::Exception& e)
 static std::string run(const std::vector<std::string>& t)
 {
   const std::string& op = t.at(0);
+  // the arguments live in named objects so that (a) one object can be passed in two roles (ops ending in '@'),
+  // (b) a result can be assigned back to its own argument (ops ending in '='), (c) we can check afterwards that
+  // the callee left its (const&) arguments untouched
+  std::string a = t.size() > 1 && t[1][0] == ':' ? unesc(t[1]) : std::string();
+  std::string b = t.size() > 2 && t[2][0] == ':' ? unesc(t[2]) : std::string();
+  const std::string a0 = a, b0 = b;
+  auto untouched = [&](const std::string& r) { return (a == a0 && b == b0) ? r : "ARG-MODIFIED " + r; };
   try {
     if (op == "process") {
-      std::string r = Dune::processPath(unesc(t.at(1)));
-      return esc(r) + " " + esc(Dune::processPath(r));
+      std::string r = Dune::processPath(a);
+      return untouched(esc(r) + " " + esc(Dune::processPath(r)));
     }
-    if (op == "pretty") return esc(Dune::prettyPath(unesc(t.at(1)), t.at(2) == "1"));
-    if (op == "prettyauto") return esc(Dune::prettyPath(unesc(t.at(1))));
-    if (op == "isdir") return Dune::pathIndicatesDirectory(unesc(t.at(1))) ? "1" : "0";
-    if (op == "concat") return esc(Dune::concatPaths(unesc(t.at(1)), unesc(t.at(2))));
-    if (op == "relpath") return esc(Dune::relativePath(unesc(t.at(1)), unesc(t.at(2))));
-    if (op == "prefix") return Dune::hasPrefix(unesc(t.at(1)), unesc(t.at(2)).c_str()) ? "1" : "0";
-    if (op == "suffix") return Dune::hasSuffix(unesc(t.at(1)), unesc(t.at(2)).c_str()) ? "1" : "0";
+    if (op == "process=") {                      // x = processPath(x); x = processPath(x)
+      a = Dune::processPath(a); std::string r = a; a = Dune::processPath(a);
+      return esc(r) + " " + esc(a);
+    }
+    if (op == "pretty") return untouched(esc(Dune::prettyPath(a, t.at(2) == "1")));
+    if (op == "pretty=") { a = Dune::prettyPath(a, t.at(2) == "1"); return esc(a); }
+    if (op == "prettyauto") return untouched(esc(Dune::prettyPath(a)));
+    if (op == "prettyauto=") { a = Dune::prettyPath(a); return esc(a); }
+    if (op == "isdir") return untouched(Dune::pathIndicatesDirectory(a) ? "1" : "0");
+    if (op == "concat") return untouched(esc(Dune::concatPaths(a, b)));
+    if (op == "concat@") return untouched(esc(Dune::concatPaths(a, a)));          // both parameters bound to ONE object
+    if (op == "concat=") { a = Dune::concatPaths(a, a); return esc(a); }          // ... and the result assigned back to it
+    if (op == "concat=base") { a = Dune::concatPaths(a, b); return esc(a); }      // base = concatPaths(base, p)
+    if (op == "concat=p") { b = Dune::concatPaths(a, b); return esc(b); }         // p = concatPaths(base, p)
+    if (op == "relpath") return untouched(esc(Dune::relativePath(a, b)));
+    if (op == "relpath@") return untouched(esc(Dune::relativePath(a, a)));
+    if (op == "relpath=p") { b = Dune::relativePath(a, b); return esc(b); }
+    if (op == "prefix") return untouched(Dune::hasPrefix(a, b.c_str()) ? "1" : "0");
+    if (op == "suffix") return untouched(Dune::hasSuffix(a, b.c_str()) ? "1" : "0");
+    // the const char* argument points INTO the container's own buffer (offset k): t = op :s :<s.substr(k)> k
+    if (op == "prefix@") return untouched(Dune::hasPrefix(a, a.c_str() + std::stoul(t.at(3))) ? "1" : "0");
+    if (op == "suffix@") return untouched(Dune::hasSuffix(a, a.c_str() + std::stoul(t.at(3))) ? "1" : "0");
     if (op.rfind("prefix_", 0) == 0 || op.rfind("suffix_", 0) == 0) {
       // other character containers: the templates only use size(), begin(), const_iterator, std::advance
       const std::string c = unesc(t.at(1)), x = unesc(t.at(2));
@@ -71,6 +94,8 @@ static std::string run(const std::vector<std::string>& t)
       if (k == "vec") { const std::vector<char> v(c.begin(), c.end()); r = pre ? Dune::hasPrefix(v, x.c_str()) : Dune::hasSuffix(v, x.c_str()); }
       else if (k == "list") { const std::list<char> v(c.begin(), c.end()); r = pre ? Dune::hasPrefix(v, x.c_str()) : Dune::hasSuffix(v, x.c_str()); }
       else if (k == "deque") { const std::deque<char> v(c.begin(), c.end()); r = pre ? Dune::hasPrefix(v, x.c_str()) : Dune::hasSuffix(v, x.c_str()); }
+      else if (k == "vsc") { const std::vector<signed char> v(c.begin(), c.end()); r = pre ? Dune::hasPrefix(v, x.c_str()) : Dune::hasSuffix(v, x.c_str()); }
+      else if (k == "pmr") { const std::pmr::string v(c.begin(), c.end()); r = pre ? Dune::hasPrefix(v, x.c_str()) : Dune::hasSuffix(v, x.c_str()); }
       else if (k == "sv") { const std::string_view v(c); r = pre ? Dune::hasPrefix(v, x.c_str()) : Dune::hasSuffix(v, x.c_str()); }
       else return "UNKNOWN-KIND";
       return r ? "1" : "0";
@@ -103,6 +128,17 @@ static std::string run(const std::vector<std::string>& t)
         const char* p2 = s2.c_str();
         return esc(Dune::formatString(fmt, s1.c_str(), (int) std::stol(a.substr(k1 + 1, k2 - k1 - 1)), p2));
       }
+      if (kind == "s@") return esc(Dune::formatString(fmt, fmt.c_str()));          // the format string's own buffer as %s argument
+      if (kind == "hd") return esc(Dune::formatString(fmt, (short) std::stol(t.at(3))));
+      if (kind == "hu") return esc(Dune::formatString(fmt, (unsigned short) std::stoul(t.at(3))));
+      if (kind == "b") return esc(Dune::formatString(fmt, t.at(3) == "1"));
+      if (kind == "f32") return esc(Dune::formatString(fmt, (float) std::strtod(t.at(3).c_str(), nullptr)));
+      if (kind == "Lf") return esc(Dune::formatString(fmt, (long double) std::strtold(t.at(3).c_str(), nullptr)));
+      if (kind == "i5") {   // five int arguments "a,b,c,d,e"
+        int v[5]; std::string q = unesc(t.at(3)); std::size_t pos = 0;
+        for (int i = 0; i < 5; ++i) { auto k = q.find(',', pos); v[i] = std::stoi(q.substr(pos, k - pos)); pos = k + 1; }
+        return esc(Dune::formatString(fmt, v[0], v[1], v[2], v[3], v[4]));
+      }
       if (kind == "lc") return esc(Dune::formatString(fmt, (wint_t) std::stoul(t.at(3))));   // unconvertible in the C locale: snprintf < 0
       if (kind == "none") return esc(Dune::formatString(fmt));
       return "UNKNOWN-KIND";
@@ -123,6 +159,10 @@ int main(int argc, char** argv)
     std::vector<std::string> t; std::string w;
     while (is >> w) t.push_back(w);
     std::string r = t.empty() ? "EMPTY" : run(t);
+    if (!t.empty()) {   // the functions are stateless: a second call on the same input must observe the same
+      const std::string r2 = run(t);
+      if (r2 != r) r = "NONDETERMINISTIC " + r + " THEN " + r2;
+    }
     std::fputs(r.c_str(), stdout); std::fputc('\n', stdout); std::fflush(stdout);
   }
   return 0;
